@@ -109,6 +109,14 @@ func (s *Sim) Pause() {
 	time.Sleep(at - s.Now())
 }
 
+// Events returns how many environment instants were reserved so far (a measure
+// of the harness's own per-event work in this run).
+func (s *Sim) Events() uint64 {
+	s.mu.Lock()
+	defer s.mu.Unlock()
+	return s.resN
+}
+
 // Seq hands out the global event sequence number used to stamp histories.
 func (s *Sim) Seq() uint64 {
 	s.mu.Lock()
